@@ -38,6 +38,7 @@ LEQV = z3.Function('LEQ', VL, VL, z3.BoolSort())          # a <= b on opaque flo
 OFNUM = z3.Function('OFNUM', z3.RealSort(), VL)           # a tracked number read as a float
 MINOBJ = z3.Function('MINOBJ', z3.IntSort(), VL)          # model.min_objective_value() = max(abs_tol, rel_tol * objbeg) of model version v
 KOPT = z3.Function('KOPT', z3.IntSort(), z3.IntSort())     # model.kopt of model version v (slot of the incumbent record)
+NUMPTS = z3.Function('NUMPTS', z3.IntSort(), z3.IntSort()) # model.num_pts (capacity of the interpolation set) of model version v
 POSV = z3.Function('POS', VL, z3.BoolSort())              # v > 0.0 on an opaque float
 LTV = z3.Function('LT', VL, VL, z3.BoolSort())            # a < b on opaque floats (uninterpreted: only congruence is used)
 ISNANV = z3.Function('ISNAN', VL, z3.BoolSort())          # np.isnan(v) of an opaque scalar
@@ -106,7 +107,9 @@ class LedgerDomain(ParamsMixin, Domain):
                              # C04 (ii): the pending trial point was accepted as an improvement (ratio > 0); the model version whose incumbent record was offered to save_point
                              'better': 'bool', 'savedver': 'int',
                              # hard-restart merge: the best-so-far objective before a run, the objective the run returned, "a restarted run has happened"
-                             'objprev': 'val', 'objnew': 'val', 'ran': 'bool'}
+                             'objprev': 'val', 'objnew': 'val', 'ran': 'bool',
+                             # C19 (N5): the caller left growing.ndirs_initial at (or above) npt - 1, so the initial set is complete and the run never grows
+                             'fullinit': 'bool'}
         fs = self.field_shapes
         fs[('Controller', 'nf')] = 'int'
         fs[('Controller', 'nx')] = 'int'
@@ -130,7 +133,7 @@ class LedgerDomain(ParamsMixin, Domain):
         self.builtins['remove_scaling'] = lambda eng, n, a, k, st: RS(a[0]) if isval(a[0]) else UNK
         self.spec_funcs = {'UNSC': UNSC, 'COLDIV': COLDIV, 'EX': EX, 'ER': ER, 'EO': EO, 'ENS': ENS, 'EEN': EEN, 'EJ': EJ, 'EJN': EJN, 'RS': RS, 'ABS': ABS, 'SUBBASE': SUBBASE, 'ROW': ROW, 'MEANV': MEANV, 'REC_X': REC_X, 'REC_R': REC_R, 'REC_NS': REC_NS,
                            'REC_EN': REC_EN, 'NPT': NPT,
-                           'SUMSQ': SUMSQV, 'HVAL': HVAL, 'ADDV': ADDV, 'LEQ': LEQV, 'OFNUM': OFNUM, 'MINOBJ': MINOBJ, 'KOPT': KOPT, 'POS': POSV, 'LT': LTV, 'ISNAN': ISNANV}
+                           'SUMSQ': SUMSQV, 'HVAL': HVAL, 'ADDV': ADDV, 'LEQ': LEQV, 'OFNUM': OFNUM, 'MINOBJ': MINOBJ, 'KOPT': KOPT, 'POS': POSV, 'LT': LTV, 'ISNAN': ISNANV, 'NUMPTS': NUMPTS}
 
     def name_shape(self, name):
         if name == 'ratio':
@@ -251,6 +254,8 @@ class LedgerDomain(ParamsMixin, Domain):
                 return st.heap[('G', 'proj')]
             if attr == 'xbase':
                 return BaseTok(st.heap[('G', 'gen')])
+            if attr == 'num_pts':
+                return NUMPTS(st.heap[('G', 'nptver')])
             if attr == 'kopt':
                 # A-M (class invariant INV_shape, proved on every Model method in bundle model): 0 <= kopt < npt()
                 k = KOPT(st.heap[('G', 'mver')])
